@@ -85,6 +85,33 @@ func (fv *FV) execStmt(st *State, s ast.Stmt, ctl *Ctl, k Kont) {
 		}
 		k(st)
 	case *ast.AssignStmt:
+		// x, y := func(...){...}(...)  or  x, y := callThrough(..., func(...){...}, ...): execute the literal with all its exit paths
+		if len(x.Rhs) == 1 && (x.Tok == token.ASSIGN || x.Tok == token.DEFINE) {
+			if call, ok := stripParens(x.Rhs[0]).(*ast.CallExpr); ok {
+				if lit, args := fv.litCall(st, call); lit != nil {
+					fv.execLitCall(st, lit, args, call.Pos(), ctl, func(s2 *State, vals []Term) {
+						if len(vals) != len(x.Lhs) {
+							fv.abort(x.Pos(), "function literal yields %d values, %d expected", len(vals), len(x.Lhs))
+						}
+						sig := fv.info.TypeOf(lit).(*types.Signature)
+						for i, l := range x.Lhs {
+							id, isID := l.(*ast.Ident)
+							if isID && id.Name == "_" {
+								continue
+							}
+							if isID {
+								fv.defineVar(s2, id, vals[i], sig.Results().At(i).Type())
+								continue
+							}
+							p := fv.lvalue(s2, l)
+							fv.writePath(s2, p, fv.convertTo(s2, vals[i], sig.Results().At(i).Type(), fv.info.TypeOf(l), x.Pos()), x.Pos())
+						}
+						k(s2)
+					})
+					return
+				}
+			}
+		}
 		fv.execAssign(st, x)
 		k(st)
 	case *ast.IncDecStmt:
@@ -551,3 +578,97 @@ func (fv *FV) execTypeSwitch(st *State, x *ast.TypeSwitchStmt, ctl *Ctl, k Kont)
 }
 
 var _ = fmt.Sprint
+
+// litCall recognises calls that run a function literal exactly once: an immediately invoked literal, or a
+// call-through helper with a literal argument. It returns the literal and the argument terms bound to its parameters.
+func (fv *FV) litCall(st *State, call *ast.CallExpr) (*ast.FuncLit, []Term) {
+	fun := stripParens(call.Fun)
+	if lit, ok := fun.(*ast.FuncLit); ok {
+		var args []Term
+		for _, a := range call.Args {
+			args = append(args, fv.evalExpr(st, a))
+		}
+		return lit, args
+	}
+	if ix, ok := fun.(*ast.IndexExpr); ok {
+		fun = stripParens(ix.X)
+	}
+	if ix, ok := fun.(*ast.IndexListExpr); ok {
+		fun = stripParens(ix.X)
+	}
+	var callee *types.Func
+	switch f := fun.(type) {
+	case *ast.Ident:
+		callee, _ = fv.info.ObjectOf(f).(*types.Func)
+	case *ast.SelectorExpr:
+		if fv.info.Selections[f] == nil {
+			callee, _ = fv.info.ObjectOf(f.Sel).(*types.Func)
+		}
+	}
+	if callee == nil {
+		return nil, nil
+	}
+	idx, ok := callThrough[funcKey(callee)]
+	if !ok || idx >= len(call.Args) {
+		return nil, nil
+	}
+	lit, ok := stripParens(call.Args[idx]).(*ast.FuncLit)
+	if !ok {
+		return nil, nil
+	}
+	for i, a := range call.Args {
+		if i != idx {
+			fv.evalExprLoose(st, a)
+		}
+	}
+	fv.note("ASSUMED call-through: " + funcKey(callee) + " calls its function argument exactly once and returns its results")
+	var args []Term
+	if lit.Type.Params != nil && len(lit.Type.Params.List) == 1 && len(call.Args) > 0 {
+		args = append(args, fv.evalExpr(st, call.Args[0]))
+	}
+	return lit, args
+}
+
+// execLitCall runs the body of a function literal in continuation-passing style: every return path continues with k.
+func (fv *FV) execLitCall(st *State, lit *ast.FuncLit, args []Term, pos token.Pos, ctl *Ctl, k func(*State, []Term)) {
+	if fv.inlineDepth > 3 {
+		fv.abort(pos, "function literal nesting too deep")
+	}
+	sig := fv.info.TypeOf(lit).(*types.Signature)
+	i := 0
+	for _, f := range lit.Type.Params.List {
+		for _, n := range f.Names {
+			if obj := fv.info.Defs[n]; obj != nil && i < len(args) {
+				st.vars[obj] = args[i]
+			}
+			i++
+		}
+	}
+	outerDefers := st.defers
+	st.defers = nil
+	saveSig, saveRes := fv.curSig, fv.curResObjs
+	fv.curSig = sig
+	fv.curResObjs = nil
+	fv.inlineDepth++
+	inner := &Ctl{brk: map[string]Kont{}, cont: map[string]Kont{}}
+	inner.ret = func(s2 *State, vals []Term) {
+		// deferred calls of the literal run at each of its returns
+		for j := len(s2.defers) - 1; j >= 0; j-- {
+			d := s2.defers[j]
+			if dl, ok := stripParens(d.call.Fun).(*ast.FuncLit); ok {
+				fv.inlineLit(s2, dl, d.call.Args, d.call.Pos())
+			} else if !fv.isBuiltinCall(d.call, "close") {
+				fv.evalCall(s2, d.call)
+			}
+		}
+		s2.defers = outerDefers
+		// leave the literal's context while the continuation runs
+		sSig, sRes, sDepth := fv.curSig, fv.curResObjs, fv.inlineDepth
+		fv.curSig, fv.curResObjs, fv.inlineDepth = saveSig, saveRes, sDepth-1
+		k(s2, vals)
+		fv.curSig, fv.curResObjs, fv.inlineDepth = sSig, sRes, sDepth
+	}
+	fv.execBlock(st, lit.Body.List, inner, func(s2 *State) { inner.ret(s2, nil) })
+	fv.curSig, fv.curResObjs = saveSig, saveRes
+	fv.inlineDepth--
+}
